@@ -214,3 +214,133 @@ Print Assumptions C16_composition_nonvacuous_us.
 Print Assumptions C16_composition_nonvacuous_ie.
 Print Assumptions C16_composed_refuted_22_holders.
 Print Assumptions C16_composed_refuted_jp_from_and_to.
+
+(** ------------------------------------------------------------------------------------------------------------
+    TOTALITY OF THE COMPUTATION ("ComputedData exists"; Model/TotalSpec.v, Proofs/ComputeTotal.v, Proofs/RunComposeTotal.v).
+    [C16_run_total_of_models] above still assumes [exists cs, computed_all i (rp_assets i) = Ok cs].  Below that assumption is
+    replaced by hypotheses about the INPUT.
+
+    [matched_history sched h t fs]: [build h = Ok t] (the constructors accepted every row, row ids distinct per table, the IN
+    table not empty); [in_rows_increasing h] (IN rows in sheet order); events of one instant lie in one local year (F13) and
+    the schedule has an entry at or before every event year, with distinct years (the two genuine restrictions of C01 / C02);
+    and [fractions_of gen_always_repush sched t = Ok fs]: the fractions are what the matcher produced.
+    [never_overdrawn to_day t]: no debit up to the to-date leaves the debited account more than 5e-11 below zero (the exact C08
+    condition); [holders_ok t]: holder indices below 100000 (the account encoding of the model).
+
+    Stage by stage: duplicate row ids among the taxable events are excluded because the matcher ran; the matcher names only
+    events / lots it was given (resolve_all); the numbering sanity checks never fire (C10); every divisor -- the event's amount
+    (proceeds), the lot's amount (cost basis, sold percentage), the total crypto_in up to the to-date (average price; no division
+    when there is none) -- is positive, because a successful matcher run has only positive event amounts
+    ([C16_matcher_accepts_only_positive_amounts]: in particular no STAKING acquisition of amount <= 0, which the constructor
+    lets through and rp2 rejects in the matcher stage as the model does) and the constructors make every other amount positive. *)
+From RP2V Require Import Model.Matcher Model.MatchSpec Model.ComputedSpec Model.TotalSpec Proofs.PipelineWf Proofs.ComputeTotal
+  Proofs.L4Examples Proofs.ComputeTotalExamples Proofs.RunComposeTotal.
+
+(** ComputedData exists for every window: with -n always, without -n when no debit overdraws its account *)
+Theorem C16_computed_data_exists : forall sched h t fs, matched_history sched h t fs ->
+  forall period from_day to_day allow exs hos,
+  allow = true \/ (holders_ok t /\ never_overdrawn to_day t) ->
+  exists cd, compute period from_day to_day allow exs hos t fs = Ok cd.
+Proof. exact compute_total. Qed.
+
+(** exactly when it does not: the negative-balance error on an overdraft without -n, and nothing else *)
+Theorem C16_computation_fails_exactly_on_overdraft : forall sched h t fs, matched_history sched h t fs ->
+  forall period from_day to_day exs hos, holders_ok t ->
+  (exists cd, compute period from_day to_day true exs hos t fs = Ok cd /\
+     (never_overdrawn to_day t -> compute period from_day to_day false exs hos t fs = Ok cd)) /\
+  (forall allow, compute period from_day to_day allow exs hos t fs = Err ENegBalance <-> allow = false /\ some_overdraft to_day t) /\
+  (forall allow, (exists cd, compute period from_day to_day allow exs hos t fs = Ok cd) <-> allow = true \/ never_overdrawn to_day t).
+Proof. exact compute_err_exact. Qed.
+Theorem C16_computation_only_error : forall sched h t fs, matched_history sched h t fs ->
+  forall period from_day to_day allow exs hos e,
+  compute period from_day to_day allow exs hos t fs = Err e -> e = ENegBalance /\ allow = false.
+Proof. exact compute_only_error. Qed.
+
+(** matching + aggregation on a built history ([built_history]: as above without the matcher's result, with
+    [no_nonpositive_staking] as a hypothesis; [evs] = its taxable events, i.e. row ids are distinct across the tables): it fails
+    in exactly two ways -- the lots run out at some disposal ([lots_exhausted]; rp2: "Total in-transaction crypto value < total
+    taxable crypto value"), or an account is overdrawn without -n *)
+Theorem C16_compute_tax_outcome : forall sched h t evs, built_history sched h t -> taxable_events t = Ok evs ->
+  forall period from_day to_day allow exs hos, holders_ok t ->
+  (compute_tax period from_day to_day allow exs hos sched t = Err EExhausted <-> lots_exhausted t evs) /\
+  (compute_tax period from_day to_day allow exs hos sched t = Err ENegBalance <->
+     ~ lots_exhausted t evs /\ allow = false /\ some_overdraft to_day t) /\
+  ((exists cd, compute_tax period from_day to_day allow exs hos sched t = Ok cd) <->
+     ~ lots_exhausted t evs /\ (allow = true \/ never_overdrawn to_day t)) /\
+  (forall e, compute_tax period from_day to_day allow exs hos sched t = Err e -> e = EExhausted \/ e = ENegBalance).
+Proof. exact compute_tax_outcome. Qed.
+
+(** a history the matcher accepted has only positive event amounts, hence no STAKING acquisition of amount <= 0 *)
+Theorem C16_matcher_accepts_only_positive_amounts : forall ar lots sched evs fs,
+  run_matcher ar lots sched evs = Ok fs -> forall e, In e evs -> 0 < e_amt e.
+Proof. exact matcher_ok_events_positive. Qed.
+Theorem C16_matched_history_has_no_nonpositive_staking : forall sched h t fs,
+  build h = Ok t -> fractions_of gen_always_repush sched t = Ok fs -> no_nonpositive_staking h.
+Proof. exact matched_no_nonpositive_staking. Qed.
+
+(** the multi-asset report input.  [input_from_rows i]: every asset of [i] has [matched_history (rp_sched i) h (ra_txs a)
+    (ra_fracs a)] for some raw history [h], and [rp_allow i = true] or the asset is never overdrawn up to [rp_to i] *)
+Theorem C16_computed_data_exists_for_every_asset : forall i, input_from_rows i ->
+  exists cs, computed_all i (rp_assets i) = Ok cs /\ map fst cs = rp_assets i.
+Proof. exact computed_all_total. Qed.
+Theorem C16_compute_stage_fails_only_on_overdraft : forall c v i e,
+  (forall a, In a (rp_assets i) -> asset_from_rows i a /\ holders_ok (ra_txs a)) ->
+  computed_all i (rp_assets i) = Err e ->
+  run_reports c v i = Err ENegBalance /\ e = ENegBalance /\ rp_allow i = false /\
+  exists a, In a (rp_assets i) /\ some_overdraft (rp_to i) (ra_txs a).
+Proof. exact run_reports_compute_stage_error. Qed.
+
+(** Main statement, composed, with hypotheses about the input only (plus the per-report conditions [reports_ok_hyps]) *)
+Theorem C16_run_total_of_models_from_rows : forall c o cf v i,
+  supported c o -> run_matches c o cf i -> (o_method o = None \/ cf_sched cf = []) ->
+  Forall (fun e => str_in (snd e) method_plugins = true) (cf_sched cf) ->
+  input_from_rows i -> reports_ok_hyps v i ->
+  run c o cf (inp_of_rinput i) = (0, map (output_name o (expected_label c o cf)) (discovery c)) /\
+  exists l, run_reports c v i = Ok l /\ map fst l = discovery c /\
+            map (fun gs => output_name o (expected_label c o cf) (fst gs)) l = snd (run c o cf (inp_of_rinput i)).
+Proof. exact run_total_of_models_from_rows. Qed.
+Theorem C16_reports_all_produced_from_rows : forall v i,
+  input_from_rows i -> reports_ok_hyps v i ->
+  exists l, run_reports (rp_country i) v i = Ok l /\ map fst l = discovery (rp_country i) /\
+            forall g sheets, In (g, sheets) l -> run_gen v i g = inl sheets.
+Proof. exact reports_all_produced_from_rows. Qed.
+
+(** non-vacuity (Proofs/ComputeTotalExamples.v, Proofs/RunComposeTotal.v, evaluated by the kernel): history A of L4Examples.v is a
+    [matched_history] ([hA_matched]; instances [hA_compute_total_allow], [hA_compute_total_strict], [hA_err_exact],
+    [hA_tax_outcome]); [hB'] (buy 1 on E0, buy 5 on E1, sell 2 from E0) is matched, overdrawn, and gets exactly the three
+    outcomes ([hB'_outcomes]); history B itself exhausts the lots ([tB_exhausted]); the two-asset input [ex2_i] meets
+    [input_from_rows] with the raw rows decoded from [ex2_code], and the composed statement applies to it ... *)
+Theorem C16_from_rows_nonvacuous :
+  input_from_rows ex2_i /\ reports_ok_hyps (wv 0) ex2_i /\
+  exists files l, run US opts0 cfg2 (inp_of_rinput ex2_i) = (0, files) /\ length files = 3%nat /\
+                  run_reports US (wv 0) ex2_i = Ok l /\ map fst l = discovery US.
+Proof. exact ex2_run_total_from_rows. Qed.
+(** ... an overdrawn single-asset input is rejected by the compute stage before any generator runs ... *)
+Theorem C16_overdrawn_input_rejected : exists e, computed_all exB_i (rp_assets exB_i) = Err e /\ run_reports US (wv 0) exB_i = Err ENegBalance.
+Proof. exact exB_rejected. Qed.
+(** ... and the corner cases: a STAKING acquisition of amount 0 / below 0 builds and is rejected by the matcher with a value
+    error in every position tried (alone, after a BUY, before a BUY, followed by a sale); a positive one computes *)
+Theorem C16_nonpositive_staking_rejected_by_matcher :
+  outcome (mkh [r_in 3 18000 0 0 STAKING (10 * U) 0] []) = (Some EValue, Some EValue) /\
+  outcome (mkh [r_in 3 18000 0 0 BUY (10 * U) U; r_in 4 18100 0 0 STAKING (10 * U) 0] []) = (Some EValue, Some EValue) /\
+  outcome (mkh [r_in 3 18000 0 0 BUY (10 * U) U; r_in 4 18100 0 0 STAKING (10 * U) (- U / 2)] []) = (Some EValue, Some EValue) /\
+  outcome (mkh [r_in 3 18000 0 0 BUY (10 * U) U; r_in 4 18100 0 0 STAKING (10 * U) (- U / 2)] [r_out 9 18200 0 0 SELL (20 * U) (U / 4) 0])
+    = (Some EValue, Some EValue) /\
+  outcome (mkh [r_in 3 18000 0 0 STAKING (10 * U) (- U)] []) = (Some EValue, Some EValue) /\
+  outcome (mkh [r_in 3 18000 0 0 STAKING (10 * U) (- U); r_in 4 18100 0 0 BUY (10 * U) U] []) = (Some EValue, Some EValue) /\
+  outcome (mkh [r_in 3 18000 0 0 STAKING (10 * U) U] []) = (None, None).
+Proof. exact staking_nonpositive_rejected. Qed.
+
+Print Assumptions C16_computed_data_exists.
+Print Assumptions C16_computation_fails_exactly_on_overdraft.
+Print Assumptions C16_computation_only_error.
+Print Assumptions C16_compute_tax_outcome.
+Print Assumptions C16_matcher_accepts_only_positive_amounts.
+Print Assumptions C16_matched_history_has_no_nonpositive_staking.
+Print Assumptions C16_computed_data_exists_for_every_asset.
+Print Assumptions C16_compute_stage_fails_only_on_overdraft.
+Print Assumptions C16_run_total_of_models_from_rows.
+Print Assumptions C16_reports_all_produced_from_rows.
+Print Assumptions C16_from_rows_nonvacuous.
+Print Assumptions C16_overdrawn_input_rejected.
+Print Assumptions C16_nonpositive_staking_rejected_by_matcher.
